@@ -116,8 +116,12 @@ impl LyNative for AssertEq {
       return Call::Ok(VALUE_NIL);
     }
 
+    // the second str() may collect, keep the first string alive across it
     let arg0 = to_str(hooks, args[0])?;
-    let arg1 = to_str(hooks, args[1])?;
+    hooks.push_root(arg0);
+    let arg1 = to_str(hooks, args[1]);
+    hooks.pop_roots(1);
+    let arg1 = arg1?;
 
     create_error!(
       self.error,
@@ -161,8 +165,12 @@ impl LyNative for AssertNe {
       return Call::Ok(VALUE_NIL);
     }
 
+    // the second str() may collect, keep the first string alive across it
     let arg0 = to_str(hooks, args[0])?;
-    let arg1 = to_str(hooks, args[1])?;
+    hooks.push_root(arg0);
+    let arg1 = to_str(hooks, args[1]);
+    hooks.pop_roots(1);
+    let arg1 = arg1?;
 
     create_error!(
       self.error,
